@@ -18,6 +18,7 @@ import (
 	"context"
 	"errors"
 	"fmt"
+	"maps"
 	"math/bits"
 	"runtime"
 	"slices"
@@ -1394,7 +1395,9 @@ func (c ipamClient) releaseIPsFromBlock(ctx context.Context, config *IPAMConfig,
 		// Success - decrement handles.
 		logCtx.Debugf("Decrementing handles: %v", handles)
 		for handleID, amount := range handles {
-			if err := c.decrementHandle(ctx, handleID, blockCIDR, amount, handleMap[handleID]); err != nil {
+			// The cached handles are shared with the goroutines releasing from other blocks
+			// and decrementHandle modifies the object it is given, so hand it a private copy.
+			if err := c.decrementHandle(ctx, handleID, blockCIDR, amount, copyHandleKVPair(handleMap[handleID])); err != nil {
 				logCtx.WithError(err).Warn("Failed to decrement handle")
 			}
 		}
@@ -2108,6 +2111,21 @@ func (c ipamClient) incrementHandle(ctx context.Context, handleID string, blockC
 		return nil
 	}
 	return errors.New("Max retries hit - excessive concurrent IPAM requests")
+}
+
+// copyHandleKVPair returns a copy of the given handle KVPair (or nil) that can be modified
+// without affecting the original.
+func copyHandleKVPair(kvp *model.KVPair) *model.KVPair {
+	if kvp == nil {
+		return nil
+	}
+	cp := *kvp
+	if h, ok := kvp.Value.(*model.IPAMHandle); ok && h != nil {
+		hc := *h
+		hc.Block = maps.Clone(h.Block)
+		cp.Value = &hc
+	}
+	return &cp
 }
 
 func (c ipamClient) decrementHandle(ctx context.Context, handleID string, blockCIDR net.IPNet, num int, obj *model.KVPair) error {
